@@ -668,6 +668,24 @@ def _add_private_name_clashes(rng, pkg: Pkg) -> None:
                 host.methods.append(Fn(r.name, [Param("clashparam", "int")], "int", role="inst"))
             elif isinstance(target, Cls) and not any(c.name == r.name for c in host.nested):
                 host.nested.append(Cls(r.name, methods=[Fn("clashsecret", role="inst")]))
+    # ... and a second private declaration of the same bare name in a sibling module, imported by the same __init__ AFTER the
+    # aliased re-export and without alias (it stays private; the alias belongs to the first one)
+    k = 0
+    for p, res in list(pkg.inits.items()):
+        for r in list(res):
+            if not (r.form == "name" and r.alias and is_private_name(r.name or "") and not is_private_name(r.alias)) or rng.random() < 0.5:
+                continue
+            src = next((x for x in pkg.modules if x.qname == r.module), None)
+            target = next((d for d in (src.decls if src else []) if getattr(d, "name", None) == r.name), None)
+            if target is None or any(r2 is not r and r2.form == "name" and r2.name == r.name for r2 in res):
+                continue
+            k += 1
+            modname = f"_samebare{k}"
+            if any(x.pkg == tuple(p) and x.name == modname for x in pkg.modules):
+                continue
+            twin = Cls(r.name, methods=[Fn("of_the_second_one", role="inst")]) if isinstance(target, Cls) else Fn(r.name, [Param("second_one", "int")], "int")
+            pkg.modules.append(Mod(tuple(p), modname, decls=[twin]))
+            res.insert(res.index(r) + 1, Reexport("name", ".".join([*p, modname]), r.name, None, "rel"))
 
 
 def _add_reexport(rng, names, pkg: Pkg, m: Mod, d, form: str) -> None:
